@@ -242,6 +242,9 @@ def c17_cases(tier):
     # last frame number 65535 (loaded file, saved unchanged) and first-frame offsets around it
     for first in (65534, 65535):
         emit('last-frame-first=%d' % first, 'flayout 0 2 0 0 0 0\nfshape 2 0 1 1 %d 7 0 0 3\nfids 0 1 3\nload\n' % first)
+    # group id 127 (a loaded file with a sparse id) is the limit: adding one more group afterwards goes beyond it
+    emit('group-id-127', 'flayout 0 2 0 0 0 0\nfshape 1 0 1 1 1 7 0 0 3\nfids 0 1 3\nfgroup 126 1 3 0\nload\n')
+    emit('group-id-127-plus-one', 'flayout 0 2 0 0 0 0\nfshape 1 0 1 1 1 7 0 0 3\nfids 0 1 3\nfgroup 126 1 3 0\nload\nlimit 2 5\n')
     heavy = {'frames', 'parameter-blocks', 'subframes-x-channels'}
     pairs = list(itertools.combinations(names, 2))
     if tier == 'quick':
